@@ -1,6 +1,6 @@
 From Coq Require Import ZArith NArith List Bool Arith.
 From CL Require Import Base.Sx Base.Res Base.Str Regex.Rx Regex.RxSx Generated.FilterFacts
-  Model.Filter Model.FilterSpec Model.FilterCompare.
+  Model.Filter Model.FilterSpec Model.FilterCompare Model.Pattern Model.Matcher Model.FilterE2E.
 Import ListNotations.
 Open Scope Z_scope.
 
@@ -126,6 +126,44 @@ Definition to_fun (x : sx) : option (str -> action) :=
 Definition of_observer (o : observer) : sx :=
   L [of_list of_str (o_details o); L [of_nat (fst (o_summary o)); of_nat (snd (o_summary o))]].
 
+(* ---- configurations with pattern texts (Model/FilterE2E.v) ------------------------ *)
+Definition to_tpath (x : sx) : rawpath str :=
+  match x with
+  | L [A 0; t] => RPone _ (to_str t)
+  | L [A 1; ts] => RPlist _ (to_list to_str ts)
+  | _ => RPlist _ []
+  end.
+
+Definition to_trule (x : sx) : option (rawrule str) :=
+  match to_action (nth_sx 2 x) with
+  | Some a => Some (mkraw _ (to_tpath (nth_sx 0 x)) (to_option to_rawkey (nth_sx 1 x)) a)
+  | None => None
+  end.
+
+Definition to_slocs (x : sx) : option (list str) := to_option (to_list to_str) x.
+
+(* [kv; root; locales; paths; rules; children; excludes] *)
+Fixpoint to_tconfig (x : sx) : option tconfig :=
+  match x with
+  | L [kv; root; locs; paths; rules; L children; L excludes] =>
+      let kids := fix go (l : list sx) : option (list tconfig) :=
+                    match l with
+                    | [] => Some []
+                    | y :: l' => match to_tconfig y, go l' with
+                                 | Some v, Some vs => Some (v :: vs)
+                                 | _, _ => None
+                                 end
+                    end in
+      match omap to_trule rules, kids children, kids excludes with
+      | Some rs, Some cs, Some es =>
+          Some (mktc (to_list (to_pair to_str to_str) kv) (to_option to_str root) (to_slocs locs)
+                     (to_list (fun p => (to_str (nth_sx 0 p), to_slocs (nth_sx 1 p))) paths)
+                     rs cs es)
+      | _, _, _ => None
+      end
+  | _ => None
+  end.
+
 Definition dispatch (f : Z) (x : sx) : sx :=
   match f with
   | 0 => (* session: [retable; rawconfig; ops] -> Ok [[stateful; cache-free] per query] *)
@@ -179,6 +217,19 @@ Definition dispatch (f : Z) (x : sx) : sx :=
           let r := compare_missing (to_bool (nth_sx 0 x)) fs (to_list to_str (nth_sx 2 x)) in
           L [of_list of_str (c_missings r); of_nat (c_missing r); of_nat (c_report r);
              of_list of_observer (c_obs r); of_observer (c_own r)]
+      | None => sx_err
+      end
+  | 4 => (* end to end: [retable; tconfig; queries [locale; path; ent]] ->
+            Ok [Ok verdict | Raise per query] (the configuration is compiled and built once) *)
+      let cre := lookup_re (to_retable (nth_sx 0 x)) in
+      match to_tconfig (nth_sx 1 x) with
+      | Some t =>
+          of_result (fun c =>
+            of_list (fun q =>
+              of_result of_action
+                (e2e_filter_cfg c (to_str (nth_sx 0 q)) (to_str (nth_sx 1 q)) (to_ent (nth_sx 2 q))))
+              (to_list (fun q => q) (nth_sx 2 x)))
+            (do raw <- t_compile t; build Matcher.matcher str cre raw)
       | None => sx_err
       end
   | _ => sx_err
